@@ -414,7 +414,11 @@ def corpus():
 
 
 def run(ctx):
-    ok, log = ctx.proofs(PROPS)
+    # the re-check of Props.v (40 s of Print Assumptions) runs beside the correspondence
+    import threading
+    box = {}
+    th = threading.Thread(target=lambda: box.update(r=ctx.proofs(PROPS)))
+    th.start()
     ctx.cov["trusted_base"] += [
         "tools/drivers/c20_driver.py (object pool, recording handlers on <trait> and <trait>_items, exception "
         "handler recording what the notification machinery swallows, gc.collect for partner death) and "
@@ -440,4 +444,7 @@ def run(ctx):
         ctx.sample(c)
     hist.run(ctx, "c20_driver.py", cases, to_term, HEADER, CASE_T, key_fn, describe, nontrivial,
              relation="C20.Corr.corr_codes (Model.step = sync_trait machinery on every step)", shard=100)
+    th.join()
+    ok, log = box.get("r", (False, "proof re-check did not finish"))
+    ctx.obl.sort(key=lambda o: not o[0].startswith("theorem "))      # stable: theorems (file order) first
     proof_gate(ctx, ok, log, PROPS)
